@@ -32,6 +32,15 @@ CLAIMED = {
   'C08': dict(section='4 C08', technique='Coq proof that the translated supervised fit pipelines equal the documented ones (reflexivity on generated data) + re-exported C07 clauses; bit-identical differential against the base learner on Constraints-derived tuples',
               text='Theorem C08_holds (axiom-free): the statement-by-statement pipeline of every *_Supervised.fit, extracted from the source on this run, is the documented one (prepare inputs, Constraints(y) with random_state=self.random_state and default 20*n_classes^2, tuple formation, delegation to the base _fit with the same hyper-parameters); constraints never involve a point with unknown label, for every random stream. Tie: components_ of each supervised fit is bit-identical to the base learner fitted on the tuples the public Constraints helper derives from y (with and without -1 labels at random/front/back positions, default and explicit parameters, integer seeds).',
               note='trusted: Coq kernel, translator translate_supervised.py (canonical spelling of statements), C07 model'),
+  'C20': dict(section='4 C20', technique='Coq proof (R) of the eigenvalue sign test specification, the diagonal/eigen conversion algebra for any eigen-oracle output, PSD-ness of non-negative outer-product sums and the auto-init rule; bit-exact / exhaustive / exact-rational correspondence with _util.py',
+              text='Theorem C20_partial: _check_sdp_from_eigen model: ValueError iff tol<0, NonPSDError iff an eigenvalue < -tol, definite iff no eigenvalue within tol of zero; diagonal branch squares to max(0,m_ii); eigen branch gives L^T L = V diag(max(0,w)) V^T for ANY (w,V), = V diag(w) V^T when w>=0; distance depends only on L^T L; non-negative outer-product sums are PSD; auto-init rule by exhaustive case analysis. Tie: sign test compared bit-exactly on binary64 (boundary cases at 0.5/0.99/1/1.01/2 x tol), auto rule exhaustively, components_from_metric exception classes and L^T L = M on exact rationals, initialisers (identity / covariance via Penrose equations vs exact covariance of distinct points / random reproducible and SPD by exact LDL^T / array checks / strict-PD rejection) and transformation inits. Not mechanised: Cholesky branch and pseudo-inverse equations (certified per run).',
+              note='trusted: Coq kernel, vm_compute, Reals axioms, model Model/PSDConv.v, eigh/cholesky/pinvh/make_spd_matrix/PCA/LDA as oracles certified per run'),
+  'C03': dict(section='4 C03', technique='Coq proof (R) that any real L induces a symmetric PSD M and shape-correct transform for the translated query API, n_components range theorem; exploration of all documented option values with exact-rational PSD certificates',
+              text='Theorem C03_partial: for every k x d real L (any rank) the translated get_mahalanobis_matrix is d x d, entrywise symmetric and PSD and transform maps n points to n rows of length k; n_components accepted iff in [1, n_features] (n_features_in_ and fit-returns-self: C17). PARTIAL: that each solver returns a finite real float array of the documented shape is explored, not proved: 17 estimators x documented option values (~150 fits quick, x3 thorough), each fitted model checked in Coq on exact rationals (shape rule, dtype, n_features_in_, transform shape, symmetric, LDL^T-certified PSD).',
+              note='trusted: Coq kernel, vm_compute, Reals axioms, translator for the query API; solver outputs explored'),
+  'C15': dict(section='4 C15', technique='Coq proof (R) of weight non-negativity for every batch sequence, PSD of the weighted basis sum and the low-rank factorisation; binary64 re-run of the whole dual-averaging loop in Coq against the implementation',
+              text='Theorem C15_partial: for every basis, triplet set, mini-batch sequence and iteration count the current and best-checkpoint weights of the model loop are >= 0 (gamma, delta > 0); sum_i w_i b_i b_i^T is PSD; the low-rank transformation sqrt(w_i) b_i over active rows factors M and has as many rows as active weights. Tie: the Coq model re-runs the documented scheme on binary64 from the basis in use and the recorded batch indices and must reproduce (1e-7) the weights handed to the components builder; M = sum w b b^T on exact rationals; shape/warning rule; unit-norm generated bases. Not mechanised: first-minimum checkpoint selection (covered by the re-run).',
+              note='trusted: Coq kernel, vm_compute, Reals axioms, model Model/SCML.v, basis generators as oracles; rounding-order differences absorbed by tolerance, ill-conditioned runs skipped and counted'),
 }
 
 NOT_YET = {}
